@@ -1,1 +1,8 @@
-// driver placeholder
+/// Driver: read-only access to `Policy`'s private parts.
+pub mod verif {
+    use super::*;
+    pub fn lru<K>(p: &Policy<K>) -> &lru::Lru<K> { &p.lru }
+    pub fn window_capacity<K>(p: &Policy<K>) -> usize { p.window_capacity }
+    pub fn protected_capacity<K>(p: &Policy<K>) -> usize { p.protected_capacity }
+    pub fn max_capacity<K>(p: &Policy<K>) -> usize { p.max_capacity }
+}
